@@ -85,6 +85,7 @@ namespace PL
          FAM( 17, fam17 )
          FAM( 18, fam18 )
          FAM( 19, fam19 )
+         FAM( 20, act_ctl )
 #undef FAM
       }
       fprintf( stderr, "FATAL: action family %d not compiled into this unit\n", c.fam );
@@ -105,6 +106,28 @@ namespace PL
    inline Real run_impl( const Cfg& c, In& in, long fuel_limit )
    {
       switch( c.ctl ) {
+         case 10:
+            // the whole parse runs while an unrelated exception is in flight (a parser called from a destructor during stack
+            // unwinding): nothing about the run may change
+            if constexpr( ( ( VERIF_CTLS ) & 1024 ) != 0 ) {
+               Real out;
+               struct InFlight
+               {
+                  const Cfg& c;
+                  In& in;
+                  long f;
+                  Real& out;
+                  ~InFlight() { out = run_fam< mon >( c, in, f ); }
+               };
+               try {
+                  InFlight d{ c, in, fuel_limit, out };
+                  throw 0;
+               }
+               catch( int ) {
+               }
+               return out;
+            }
+            break;
          case 8:
             if constexpr( ( ( VERIF_CTLS ) & 256 ) != 0 ) return c.fam == 0 ? run_lead< p::nothing, rfs_mon >( c, in, fuel_limit ) : run_lead< act_apply, rfs_mon >( c, in, fuel_limit );
             break;
@@ -279,7 +302,11 @@ namespace PL
          case R::NESTED: {
             if( r.kind != Real::PARSE_ERROR ) return std::string( "reference raises nested, implementation: " ) + real_name( r.kind );
             // raise_nested is not overridden by must_if<>::control: always the default message of the rule
-            if( r.msg != "parse error matching " + node_names[ o.who ] ) return "nested raise names '" + r.msg + "', reference 'parse error matching " + node_names[ o.who ] + "'";
+            if( o.who == R::WHO_RAISE_MSG ) {  // a rule with an error_message of its own: that message, not the default one
+               if( r.msg != "rmsg" ) return "nested raise names '" + r.msg + "', reference 'rmsg' (the rule's own error_message)";
+            }
+            else if( r.msg != "parse error matching " + node_names[ o.who ] )
+               return "nested raise names '" + r.msg + "', reference 'parse error matching " + node_names[ o.who ] + "'";
             if( !r.nested ) return "raise_nested without nested exception";
             int nk = -1;
             switch( o.nk ) {
